@@ -15,6 +15,7 @@ pub mod c04;
 pub mod c05;
 pub mod c06;
 pub mod c07;
+pub mod c08;
 pub mod c09;
 pub mod c10;
 pub mod c11;
@@ -35,6 +36,7 @@ pub fn create(a: &Args) -> Option<Box<dyn Monitor>> {
         "C05" => Some(Box::new(c05::C05::new(a))),
         "C06" => Some(Box::new(c06::C06::new(a))),
         "C07" => Some(Box::new(c07::C07::new(a))),
+        "C08" => Some(Box::new(c08::C08::new(a))),
         "C09" => Some(Box::new(c09::C09::new(a))),
         "C10" => Some(Box::new(c10::C10::new(a))),
         "C11" => Some(Box::new(c11::C11::new(a))),
